@@ -30,6 +30,7 @@ TStep ==
           \/ nm = "reset"  /\ PReset /\ seq' = None /\ lock' = 0 /\ lockq' = <<>>
                            /\ pc' = [s \in Subs |-> "idle"] /\ mytx' = [s \in Subs |-> <<>>]
                            /\ res' = [s \in Subs |-> ""] /\ fuel' = Fuel /\ txid' = <<>>
+          \/ nm = "block"  /\ UNCHANGED <<vars, txid>>              \* the honest node made a block: no client step
           \/ nm = "begin"  /\ E.s \in Subs /\ Begin(E.s) /\ UNCHANGED txid
           \/ nm = "acct"   /\ (\E s \in Subs : Acct(s, E.q)) /\ UNCHANGED txid
           \/ nm = "est"    /\ E.s \in Subs /\ pc[E.s] = "est" /\ seq = E.q /\ Est(E.s, E.ans, E.e) /\ UNCHANGED txid
